@@ -184,4 +184,1191 @@ theorem lastCtx_toks (c : Ctx) : ∀ (ts : List STok), lastCtx c (ts.map XTok.to
     · exact Or.inr (Or.inl h)
     · exact Or.inr (Or.inr h)
 
+/-! ## 2. what the writer emits for a dict with placeholder entries (M1) -/
+
+/-- a text that ends with a full line: the layout of `xs`, final gap exactly one line feed (or nothing at all) -/
+def LaysL (xs : List XTok) (txt : Str) : Prop := (xs = [] ∧ txt = []) ∨ (xs ≠ [] ∧ LaysX .cov xs txt ['\n'])
+
+theorem LaysL.nil : LaysL [] [] := Or.inl ⟨rfl, rfl⟩
+
+theorem LaysL.append {xs ys : List XTok} {a b : Str} (ha : LaysL xs a) (hb : LaysL ys b) : LaysL (xs ++ ys) (a ++ b) := by
+  rcases ha with ⟨rfl, rfl⟩ | ⟨hx, ha⟩
+  · simpa using hb
+  · rcases hb with ⟨rfl, rfl⟩ | ⟨hy, hb⟩
+    · rw [List.append_nil, List.append_nil]; exact Or.inr ⟨hx, ha⟩
+    · exact Or.inr ⟨by simp [hx], ha.append hb hy fun u g _ _ => gapOK_nl _ u g⟩
+
+theorem nl_ws : (['\n'] : Str).all isWs = true := by decide
+
+/-- one token on a line of its own -/
+theorem LaysL.line (lvl : Nat) (t : XTok) : LaysL [t] (fline lvl t.text) := by
+  refine Or.inr ⟨by simp, ?_⟩
+  have := LaysX.tok .cov (g := spaces (4 * lvl)) (tail := ['\n']) t (C01.spaces_ws _) nl_ws rfl
+  simpa [fline] using this
+
+theorem ctxAfter_tok (t : STok) : ctxAfter (.tok t) = .dl ∨ ctxAfter (.tok t) = .wd := by
+  cases hd : isDelimSTok t <;> simp [ctxAfter, hd]
+
+/-- what may follow a word may follow any source token, also with more white space in front -/
+theorem gapOK_wd_ext {c : Ctx} (hc : c = .dl ∨ c = .wd) (u : XTok) (t g : Str) (h : gapOK .wd u g = true) :
+    gapOK c u (t ++ g) = true := by
+  simp only [gapOK, Bool.or_eq_true, Bool.not_eq_true', List.isEmpty_eq_false_iff] at h
+  rcases hc with rfl | rfl
+  · simp only [gapOK, Bool.or_eq_true, Bool.not_eq_true', List.isEmpty_eq_false_iff]
+    rcases h with h | h
+    · left; cases u <;> simp_all [isDelimX, isCommentX]
+    · right; simp [h]
+  · simp only [gapOK, Bool.or_eq_true, Bool.not_eq_true', List.isEmpty_eq_false_iff]
+    rcases h with h | h
+    · exact Or.inl h
+    · right; simp [h]
+
+theorem lastCtx_singleton (c : Ctx) (t : XTok) : lastCtx c [t] = ctxAfter t := rfl
+
+theorem semi_delim : isDelimX (.tok (.word [';'])) = true := by decide
+theorem close_delim : isDelimX (.tok (.word [')'])) = true := by decide
+
+/-- the line `key<pad>value;` -/
+theorem lays_leaf_line (lvl : Nat) (k v : STok) (pad : Str) (hp : pad.all isWs = true) (hne : pad ≠ []) :
+    LaysL [.tok k, .tok v, .tok (.word [';'])] (fline lvl (k.text ++ pad ++ v.text ++ [';'])) := by
+  have h0 := LaysX.tok .cov (g := spaces (4 * lvl)) (tail := []) (.tok k) (C01.spaces_ws _) rfl rfl
+  have h1 := LaysX.tok .bk (g := pad) (tail := []) (.tok v) hp rfl (by simpa [gapOK] using hne)
+  have h2 := LaysX.tok .wd (g := []) (tail := ['\n']) (.tok (.word [';'])) rfl nl_ws (by simp [gapOK, semi_delim])
+  have h01 := h0.append h1 (by simp) (fun u g _ hg => by
+    rw [lastCtx_singleton, List.nil_append]
+    have hgne : g ≠ [] := by simpa [gapOK] using hg
+    rcases ctxAfter_tok k with e | e <;> rw [e] <;> exact gapOK_ne (by decide) u hgne)
+  have h012 := h01.append h2 (by simp) (fun u g _ hg => by
+    have : lastCtx Ctx.cov ([XTok.tok k] ++ [XTok.tok v]) = ctxAfter (.tok v) := rfl
+    rw [this]
+    exact gapOK_wd_ext (ctxAfter_tok v) u [] g hg)
+  refine Or.inr ⟨by simp, ?_⟩
+  simpa [fline, XTok.text, STok.text] using h012
+
+/-- `key ( items );` given the layout of the items -/
+theorem lays_list_block (lvl : Nat) (xs : List Val) (d : Nat) (h : domXs .native d xs = true) :
+    LaysL (.tok (.word ['(']) :: (srcToksXs (srcOfXs .native xs)).map XTok.tok ++ [.tok (.word [')']), .tok (.word [';'])])
+      (fmtList .native lvl false xs) := by
+  have hi := C01.lays_items d lvl xs.length 0 true xs h
+  obtain ⟨tl, p2⟩ := LaysX.of_lays .wd hi (Or.inr (Or.inr (Or.inl ⟨rfl, rfl⟩)))
+  have p1 := LaysX.tok .cov (g := spaces (4 * lvl)) (tail := ['\n']) (.tok (.word ['('])) (C01.spaces_ws _) nl_ws rfl
+  -- `(` and the items
+  have p12 : ∃ tl', LaysX .cov (.tok (.word ['(']) :: (srcToksXs (srcOfXs .native xs)).map XTok.tok)
+      (spaces (4 * lvl) ++ (XTok.tok (.word ['('])).text ++ ['\n'] ++ fmtItems .native lvl xs.length 0 true xs) tl' := by
+    by_cases hne : (srcToksXs (srcOfXs .native xs)).map XTok.tok = []
+    · rw [hne] at p2 ⊢
+      exact ⟨_, p1.append_nil p2⟩
+    · exact ⟨_, p1.append p2 hne fun u g _ _ => gapOK_nl _ u g⟩
+  obtain ⟨tl', p12⟩ := p12
+  have hl : lastCtx .cov (XTok.tok (.word ['(']) :: (srcToksXs (srcOfXs .native xs)).map XTok.tok) = .dl ∨
+      lastCtx .cov (XTok.tok (.word ['(']) :: (srcToksXs (srcOfXs .native xs)).map XTok.tok) = .wd := by
+    have e : ctxAfter (XTok.tok (STok.word ['('])) = .dl := by decide
+    simp only [lastCtx, e]
+    rcases lastCtx_toks .dl (srcToksXs (srcOfXs .native xs)) with h | h | h
+    · exact Or.inl h
+    · exact Or.inl h
+    · exact Or.inr h
+  have p3 := LaysX.tok .wd (g := spaces (4 * lvl)) (tail := []) (.tok (.word [')'])) (C01.spaces_ws _) rfl
+    (by simp [gapOK, close_delim])
+  have p4 := LaysX.tok .wd (g := []) (tail := ['\n']) (.tok (.word [';'])) rfl nl_ws (by simp [gapOK, semi_delim])
+  have p123 := p12.append p3 (by simp) (fun u g _ hg => gapOK_wd_ext hl u tl' g hg)
+  have p1234 := p123.append p4 (by simp) (fun u g _ hg => by
+    rw [lastCtx_append, lastCtx_singleton]
+    exact gapOK_wd_ext (ctxAfter_tok _) u [] g hg)
+  refine Or.inr ⟨by simp, ?_⟩
+  simpa [fmtList, fline, XTok.text, STok.text, List.append_assoc] using p1234
+
+/-! ### placeholder entries -/
+
+/-- `w = kw ++ "%06d" % i` for an id within the counter's range -/
+def phIdOf (kw w : Str) : Option Nat :=
+  let i := digitsVal (w.drop kw.length)
+  if w = kw ++ padSix i ∧ i ≤ 999999 then some i else none
+
+/-- is the leaf entry `k ↦ x` a comment placeholder entry `ph ↦ ph`?  (kind: `true` = line comment, and id) -/
+def phOf (k : Key) (x : Scalar) : Option (Bool × Nat) :=
+  match k, x with
+  | .str w, .str w' =>
+    if w = w' then
+      match phIdOf kwBlock w with
+      | some i => some (false, i)
+      | none => (phIdOf kwLine w).map fun i => (true, i)
+    else none
+  | _, _ => none
+
+theorem phIdOf_some {kw w : Str} {i : Nat} (h : phIdOf kw w = some i) : w = kw ++ padSix i ∧ i ≤ 999999 := by
+  unfold phIdOf at h
+  simp only at h
+  split at h
+  · next hc => cases h; exact hc
+  · cases h
+
+theorem phIdOf_ph (kw : Str) {i : Nat} (hi : i ≤ 999999) : phIdOf kw (kw ++ padSix i) = some i := by
+  unfold phIdOf
+  simp only [List.drop_left, C02.digitsVal_padSix, hi, and_self, if_true]
+
+theorem phOf_some {k : Key} {x : Scalar} {l : Bool} {i : Nat} (h : phOf k x = some (l, i)) :
+    k = .str (phWord l i) ∧ x = .str (phWord l i) ∧ i ≤ 999999 := by
+  unfold phOf at h
+  split at h
+  · next w w' =>
+    split at h
+    · next e =>
+      subst e
+      split at h
+      · next j hj =>
+        cases h
+        obtain ⟨e, hi⟩ := phIdOf_some hj
+        exact ⟨by rw [e]; rfl, by rw [e]; rfl, hi⟩
+      · simp only [Option.map_eq_some_iff, Prod.mk.injEq] at h
+        obtain ⟨j, hj, rfl, rfl⟩ := h
+        obtain ⟨e, hi⟩ := phIdOf_some hj
+        exact ⟨by rw [e]; rfl, by rw [e]; rfl, hi⟩
+    · cases h
+  · cases h
+
+/-- characters of placeholder words -/
+theorem phChar_facts : ∀ c ∈ C02.asciiDigits ++ kwLine ++ kwBlock,
+    isWs c = false ∧ Gen.delimiters.contains c = false ∧ isQuote c = false ∧ c ≠ '$' ∧ isComplexChar c = false ∧
+    c ≠ '#' ∧ c ≠ '\n' ∧ c ≠ '\r' ∧ c ≠ ';' ∧ c ≠ '/' := by decide
+
+theorem phWord_chars (l : Bool) (i : Nat) : ∀ c ∈ phWord l i,
+    isWs c = false ∧ Gen.delimiters.contains c = false ∧ isQuote c = false ∧ c ≠ '$' ∧ isComplexChar c = false ∧
+    c ≠ '#' ∧ c ≠ '\n' ∧ c ≠ '\r' ∧ c ≠ ';' ∧ c ≠ '/' := by
+  intro c hc
+  apply phChar_facts
+  simp only [phWord, List.mem_append] at hc ⊢
+  rcases hc with hc | hc
+  · cases l
+    · exact Or.inr (by simpa using hc)
+    · exact Or.inl (Or.inr (by simpa using hc))
+  · exact Or.inl (Or.inl (C02.padSix_ascii i c hc))
+
+theorem kw_lengths : kwLine.length = 11 ∧ kwBlock.length = 12 := by decide
+
+theorem phWord_ne (l : Bool) (i : Nat) : phWord l i ≠ [] := by
+  intro h
+  have h1 := congrArg List.length h
+  have h2 := kw_lengths
+  simp only [phWord, List.length_append, List.length_nil] at h1
+  cases l
+  · simp only [Bool.false_eq_true, if_false] at h1; omega
+  · simp only [if_true] at h1; omega
+
+theorem phWord_length (l : Bool) {i : Nat} (hi : i ≤ 999999) : (phWord l i).length = if l then 17 else 18 := by
+  cases l <;> simp [phWord, C02.padSix_length hi, kw_lengths]
+
+theorem phWord_format (l : Bool) (i : Nat) : formatString .native (phWord l i) = phWord l i := by
+  refine C04.formatString_of_bare ⟨phWord_ne l i, ?_, ?_, ?_⟩
+  · cases hc : (phWord l i).contains '$' with
+    | false => rfl
+    | true => exact absurd rfl (phWord_chars l i _ (List.contains_iff_mem.mp hc)).2.2.2.1
+  · simp only [List.all_eq_true, Bool.and_eq_true, Bool.not_eq_true']
+    exact fun c hc => ⟨(phWord_chars l i c hc).2.2.1, (phWord_chars l i c hc).2.2.2.2.1⟩
+  · apply C01.startsInclude_of_head
+    intro h
+    exact (phWord_chars l i '#' (List.mem_of_mem_head? h)).2.2.2.2.2.1 rfl
+
+/-- the blanks between key and value on an entry line -/
+def padOf (lvl : Nat) (skey : Str) : Str := spaces (max 8 (30 - skey.length - 4 * lvl))
+
+theorem padOf_ws (lvl : Nat) (s : Str) : (padOf lvl s).all isWs = true := C01.spaces_ws _
+theorem padOf_ne (lvl : Nat) (s : Str) : padOf lvl s ≠ [] := C01.spaces_ne (by omega)
+
+/-- the token stream of the writer's raw output, placeholder lines as single tokens -/
+def xtoksEs (lvl : Nat) : Entries → List XTok
+  | [] => []
+  | (k, .dict es) :: r =>
+    .tok (.word (keyStr k)) :: .tok (.word ['{']) :: xtoksEs (lvl + 1) es ++ [.tok (.word ['}'])] ++ xtoksEs lvl r
+  | (k, .list xs) :: r =>
+    .tok (.word (keyStr k)) :: (.tok (.word ['(']) :: (srcToksXs (srcOfXs .native xs)).map XTok.tok ++
+      [.tok (.word [')']), .tok (.word [';'])]) ++ xtoksEs lvl r
+  | (k, .leaf x) :: r =>
+    (match phOf k x with
+     | some (l, i) => [.ph l i (padOf lvl (phWord l i))]
+     | none => [.tok (.word (keyStr k)), .tok (writtenLit .native x).tok, .tok (.word [';'])]) ++ xtoksEs lvl r
+
+/-- the shape the writer theorem needs: every leaf entry is a placeholder entry or lies in the value domain; other
+    entries have domain keys; lists lie in the value domain -/
+def wshEs (d : Nat) : Entries → Bool
+  | [] => true
+  | (k, .dict es) :: r => isDomKey k && wshEs (d + 1) es && wshEs d r
+  | (k, .list xs) :: r => isDomKey k && domXs .native (d + 1) xs && wshEs d r
+  | (k, .leaf x) :: r => ((phOf k x).isSome || (isDomKey k && isDomScalar .native x && decide (d ≤ 10))) && wshEs d r
+
+/-- **M1** `fmt_labelled_is_layout` (line form): the writer's raw output for a dict with placeholder entries is a
+    sequence of full lines laying out `xtoksEs`: every placeholder entry is the line `PH<pad>PH;` -/
+theorem lays_entriesX : ∀ (d lvl : Nat) (D : Entries), wshEs d D = true → LaysL (xtoksEs lvl D) (fmtEntries .native lvl D)
+  | _, _, [], _ => by simp only [xtoksEs, fmtEntries]; exact LaysL.nil
+  | d, lvl, (k, .dict es) :: r, h => by
+    simp only [wshEs, Bool.and_eq_true] at h
+    have h0 := LaysL.line lvl (.tok (.word (keyStr k)))
+    have h1 := LaysL.line lvl (.tok (.word ['{']))
+    have h2 := lays_entriesX (d + 1) (lvl + 1) es h.1.2
+    have h3 := LaysL.line lvl (.tok (.word ['}']))
+    have h4 := lays_entriesX d lvl r h.2
+    have := (((h0.append h1).append h2).append h3).append h4
+    simpa [xtoksEs, fmtEntries, XTok.text, STok.text] using this
+  | d, lvl, (k, .list xs) :: r, h => by
+    simp only [wshEs, Bool.and_eq_true] at h
+    have h0 := LaysL.line lvl (.tok (.word (keyStr k)))
+    have h1 := lays_list_block lvl xs (d + 1) h.1.2
+    have h4 := lays_entriesX d lvl r h.2
+    have := (h0.append h1).append h4
+    simpa [xtoksEs, fmtEntries, XTok.text, STok.text] using this
+  | d, lvl, (k, .leaf x) :: r, h => by
+    simp only [wshEs, Bool.and_eq_true, Bool.or_eq_true, decide_eq_true_eq] at h
+    have h4 := lays_entriesX d lvl r h.2
+    cases hp : phOf k x with
+    | some li =>
+      obtain ⟨l, i⟩ := li
+      obtain ⟨rfl, rfl, hi⟩ := phOf_some hp
+      have h0 := LaysL.line lvl (.ph l i (padOf lvl (phWord l i)))
+      have := h0.append h4
+      simpa [xtoksEs, hp, fmtEntries, XTok.text, formatKey, formatScalar, phWord_format, padOf] using this
+    | none =>
+      rw [hp] at h
+      rcases h.1 with h1 | h1
+      · cases h1
+      · have h0 := lays_leaf_line lvl (.word (keyStr k)) (writtenLit .native x).tok (padOf lvl (keyStr k))
+          (padOf_ws _ _) (padOf_ne _ _)
+        have := h0.append h4
+        simpa [xtoksEs, hp, fmtEntries, C01.text_word, C01.writtenLit_text, C01.formatKey_eq_keyStr h1.1.1, padOf] using this
+
+/-! ## 3. substituting a comment for its placeholder line, on a layout (M2) -/
+
+/-- the text behind a token cannot continue a placeholder word: it is empty, or starts with white space or a delimiter -/
+def StopHead (s : Str) : Prop := ∀ c, s.head? = some c → isWs c = true ∨ Gen.delimiters.contains c = true
+
+theorem substFuel_skip' (P repl : Str) : ∀ (h : Str) (fuel : Nat) (s : Str),
+    (∀ h1 h2, h = h1 ++ h2 → h2 ≠ [] → P.isPrefixOf (h2 ++ s) = false) →
+    substPhEntryFuel P repl (fuel + h.length) (h ++ s) =
+      (h ++ (substPhEntryFuel P repl fuel s).1, (substPhEntryFuel P repl fuel s).2)
+  | [], fuel, s, _ => by simp
+  | x :: h, fuel, s, hp => by
+    have hm : matchPhEntry P (x :: (h ++ s)) = none := by
+      have := hp [] (x :: h) rfl (by simp)
+      simp only [List.cons_append] at this
+      simp [matchPhEntry, this]
+    have e : fuel + (x :: h).length = (fuel + h.length) + 1 := by simp; omega
+    rw [e, List.cons_append, substPhEntryFuel, hm]
+    simp only []
+    rw [substFuel_skip' P repl h fuel s (fun h1 h2 e2 hne => hp (x :: h1) h2 (by rw [e2]; rfl) hne)]
+    rfl
+
+/-- `substPh` with the fuel hidden -/
+def subP (P repl s : Str) : Str × Bool := substPhEntryFuel P repl (s.length + 1) s
+
+theorem subP_skip {P repl : Str} (h s : Str)
+    (hp : ∀ h1 h2, h = h1 ++ h2 → h2 ≠ [] → P.isPrefixOf (h2 ++ s) = false) :
+    subP P repl (h ++ s) = (h ++ (subP P repl s).1, (subP P repl s).2) := by
+  unfold subP
+  have e : (h ++ s).length + 1 = (s.length + 1) + h.length := by simp; omega
+  rw [e, substFuel_skip' P repl h _ s hp]
+
+theorem subP_hit {P repl : Str} {c : Char} {P' : Str} (hP : P = c :: P') (hc : isWs c = false)
+    (pad s : Str) (hne : pad ≠ []) (hws : pad.all isWs = true) :
+    subP P repl (P ++ pad ++ P ++ [';'] ++ s) = (repl ++ (subP P repl s).1, true) := by
+  unfold subP
+  have e : P ++ pad ++ P ++ [';'] ++ s = P ++ (pad ++ (P ++ ';' :: s)) := by simp
+  rw [e, C12.substFuel_hit _ (C12.matchPhEntry_hit hP hc pad s hne hws)]
+  have hlen : s.length < (P ++ (pad ++ (P ++ ';' :: s))).length := by simp; omega
+  rw [C12.substFuel_enough P repl _ (s.length + 1) s hlen (by omega)]
+
+theorem noPrefix_ws {P : Str} {c : Char} {P' : Str} (hP : P = c :: P') (hc : isWs c = false) (g s : Str)
+    (hg : g.all isWs = true) : ∀ h1 h2, g = h1 ++ h2 → h2 ≠ [] → P.isPrefixOf (h2 ++ s) = false := by
+  intro h1 h2 e hne
+  cases h2 with
+  | nil => exact absurd rfl hne
+  | cons x h2 =>
+    have hx : isWs x = true := List.all_eq_true.mp hg x (by rw [e]; simp)
+    have : (c == x) = false := by
+      simp only [beq_eq_false_iff_ne, ne_eq]; rintro rfl; rw [hx] at hc; cases hc
+    simp [hP, List.isPrefixOf, this]
+
+theorem noPrefix_tok {P h s : Str} (hP : ∀ c ∈ P, isWs c = false ∧ Gen.delimiters.contains c = false)
+    (hinf : isInfix P h = false)
+    (hs : (∃ d, h = [d] ∧ Gen.delimiters.contains d = true) ∨ StopHead s) :
+    ∀ h1 h2, h = h1 ++ h2 → h2 ≠ [] → P.isPrefixOf (h2 ++ s) = false := by
+  intro h1 h2 e hne
+  cases hpre : P.isPrefixOf (h2 ++ s) with
+  | false => rfl
+  | true =>
+    exfalso
+    obtain ⟨r, hr⟩ := List.isPrefixOf_iff_prefix.mp hpre
+    rcases List.append_eq_append_iff.mp hr with ⟨a', e1, e2⟩ | ⟨c', e1, e2⟩
+    · have : isInfix P h = true := C01.isInfix_iff.mpr ⟨h1, a', by rw [e, e1]; simp⟩
+      rw [this] at hinf; cases hinf
+    · -- `h2` is a prefix of `P`
+      cases c' with
+      | nil =>
+        simp only [List.append_nil] at e1
+        have : isInfix P h = true := C01.isInfix_iff.mpr ⟨h1, [], by rw [e, e1]; simp⟩
+        rw [this] at hinf; cases hinf
+      | cons x c' =>
+        rcases hs with ⟨d, hd, hdel⟩ | hs
+        · rw [hd] at e
+          have h2d : h2 = [d] := by
+            cases h1 with
+            | nil => exact e.symm
+            | cons y h1 =>
+              simp only [List.cons_append, List.cons.injEq] at e
+              have := e.2
+              simp only [List.nil_eq, List.append_eq_nil_iff] at this
+              exact absurd this.2 hne
+          have hdP : d ∈ P := by rw [e1, h2d]; simp
+          rw [(hP d hdP).2] at hdel; cases hdel
+        · have hxP : x ∈ P := by rw [e1]; simp
+          have := hs x (by rw [e2]; rfl)
+          rcases this with h' | h'
+          · rw [(hP x hxP).1] at h'; cases h'
+          · rw [(hP x hxP).2] at h'; cases h'
+
+/-- behind a token that is no delimiter the layout cannot continue a placeholder word -/
+theorem stopHead_layX {c : Ctx} (hc : c = .wd ∨ c = .ln ∨ c = .bk) : ∀ (l : List (Str × XTok)) (tail : Str),
+    okX c l = true → tail.all isWs = true → StopHead (layX l tail)
+  | [], tail, _, ht => by
+    intro x hx
+    exact Or.inl (List.all_eq_true.mp ht x (List.mem_of_mem_head? hx))
+  | (g, t) :: l, tail, ok, _ => by
+    simp only [okX, Bool.and_eq_true] at ok
+    intro x hx
+    cases g with
+    | cons y g =>
+      simp only [layX, List.cons_append, List.head?_cons, Option.some.injEq] at hx
+      subst hx
+      exact Or.inl (List.all_eq_true.mp ok.1.1 y (by simp))
+    | nil =>
+      have hg := ok.1.2
+      rcases hc with rfl | rfl | rfl
+      · simp only [gapOK, List.isEmpty_nil, Bool.not_true, Bool.or_false] at hg
+        cases t with
+        | tok s =>
+          obtain ⟨d, hd⟩ : ∃ d, s = .word [d] ∧ d ∈ Gen.delimiters := by
+            cases s with
+            | word w => obtain ⟨d, rfl, hd⟩ := C02.delimTok_inv hg; exact ⟨d, rfl, hd⟩
+            | quoted q b => cases hg
+          rw [hd.1] at hx
+          simp only [layX, List.nil_append, XTok.text, STok.text, List.cons_append, List.head?_cons,
+            Option.some.injEq] at hx
+          subst hx
+          exact Or.inr (List.contains_iff_mem.mpr hd.2)
+        | cmt _ _ => cases hg
+        | ph _ _ _ => cases hg
+      · simp [gapOK] at hg
+      · simp [gapOK] at hg
+
+def kwOf (l : Bool) : Str := if l then kwLine else kwBlock
+
+/-- the token is the placeholder line of comment `(l, i)`, or does not contain its placeholder word -/
+def Free (l : Bool) (i : Nat) (t : XTok) : Prop :=
+  (∃ pad, t = .ph l i pad ∧ pad ≠ [] ∧ pad.all isWs = true) ∨ isInfix (phWord l i) t.text = false
+
+def isPhX (l : Bool) (i : Nat) : XTok → Bool
+  | .ph l' j _ => l' == l && j == i
+  | _ => false
+
+def substTok (l : Bool) (i : Nat) (repl : Str) : XTok → XTok
+  | .ph l' j pad => if l' = l ∧ j = i then .cmt l repl else .ph l' j pad
+  | t => t
+
+def substL (l : Bool) (i : Nat) (repl : Str) (lay : List (Str × XTok)) : List (Str × XTok) :=
+  lay.map fun p => (p.1, substTok l i repl p.2)
+
+theorem phWord_head (l : Bool) (i : Nat) : ∃ c P', phWord l i = c :: P' ∧ isWs c = false := by
+  cases h : phWord l i with
+  | nil => exact absurd h (phWord_ne l i)
+  | cons c P' => exact ⟨c, P', rfl, (phWord_chars l i c (by rw [h]; simp)).1⟩
+
+/-- **substitution on a layout**: every placeholder line of comment `(l, i)` is replaced by `repl`, literally; nothing
+    else changes; the flag says whether there was one -/
+theorem subP_layX (l : Bool) (i : Nat) (repl : Str) : ∀ (lay : List (Str × XTok)) (c : Ctx) (tail : Str),
+    okX c lay = true → tail.all isWs = true → (∀ p ∈ lay, Free l i p.2) →
+    subP (phWord l i) repl (layX lay tail) =
+      (layX (substL l i repl lay) tail, lay.any fun p => isPhX l i p.2)
+  | [], c, tail, _, ht, _ => by
+    obtain ⟨c0, P', hP, hc0⟩ := phWord_head l i
+    have := subP_skip (P := phWord l i) (repl := repl) tail [] (noPrefix_ws hP hc0 tail [] ht)
+    simp only [List.append_nil] at this
+    simp only [layX, substL, List.map_nil, List.any_nil]
+    rw [this]
+    simp [subP, substPhEntryFuel]
+  | (g, t) :: lay, c, tail, ok, ht, hfree => by
+    obtain ⟨c0, P', hP, hc0⟩ := phWord_head l i
+    simp only [okX, Bool.and_eq_true] at ok
+    have ih := subP_layX l i repl lay (ctxAfter t) tail ok.2 ht (fun p hp => hfree p (List.mem_cons_of_mem _ hp))
+    have hchars : ∀ c ∈ phWord l i, isWs c = false ∧ Gen.delimiters.contains c = false :=
+      fun c hc => ⟨(phWord_chars l i c hc).1, (phWord_chars l i c hc).2.1⟩
+    simp only [layX, List.append_assoc]
+    rw [subP_skip g _ (noPrefix_ws hP hc0 g _ ok.1.1)]
+    rcases hfree (g, t) List.mem_cons_self with ⟨pad, rfl, hne, hws⟩ | hinf
+    · have e : (XTok.ph l i pad).text ++ layX lay tail = phWord l i ++ pad ++ phWord l i ++ [';'] ++ layX lay tail := by
+        simp [XTok.text]
+      rw [e, subP_hit hP hc0 pad _ hne hws, ih]
+      simp [substL, substTok, layX, XTok.text, isPhX]
+    · have hs : (∃ d, t.text = [d] ∧ Gen.delimiters.contains d = true) ∨ StopHead (layX lay tail) := by
+        cases t with
+        | tok s =>
+          cases hd : isDelimSTok s with
+          | true =>
+            left
+            cases s with
+            | word w =>
+              obtain ⟨d, rfl, hd'⟩ := C02.delimTok_inv hd
+              exact ⟨d, rfl, List.contains_iff_mem.mpr hd'⟩
+            | quoted q b => cases hd
+          | false =>
+            right
+            exact stopHead_layX (Or.inl rfl) lay tail (by simpa [ctxAfter, hd] using ok.2) ht
+        | cmt l' full =>
+          right
+          cases l'
+          · exact stopHead_layX (Or.inr (Or.inr rfl)) lay tail ok.2 ht
+          · exact stopHead_layX (Or.inr (Or.inl rfl)) lay tail ok.2 ht
+        | ph l' j pad =>
+          right
+          cases l'
+          · exact stopHead_layX (Or.inr (Or.inr rfl)) lay tail ok.2 ht
+          · exact stopHead_layX (Or.inr (Or.inl rfl)) lay tail ok.2 ht
+      rw [subP_skip t.text _ (noPrefix_tok hchars hinf hs), ih]
+      have hnot : isPhX l i t = false ∧ substTok l i repl t = t := by
+        cases t with
+        | tok s => exact ⟨rfl, rfl⟩
+        | cmt l' full => exact ⟨rfl, rfl⟩
+        | ph l' j pad =>
+          by_cases hlj : l' = l ∧ j = i
+          · obtain ⟨rfl, rfl⟩ := hlj
+            exfalso
+            have : isInfix (phWord l' j) (XTok.ph l' j pad).text = true :=
+              C01.isInfix_iff.mpr ⟨[], pad ++ phWord l' j ++ [';'], by simp [XTok.text]⟩
+            rw [this] at hinf; cases hinf
+          · constructor
+            · simp only [isPhX, Bool.and_eq_false_iff, beq_eq_false_iff_ne, ne_eq]
+              by_cases h1 : l' = l
+              · exact Or.inr fun h2 => hlj ⟨h1, h2⟩
+              · exact Or.inl h1
+            · simp only [substTok, hlj, if_false]
+      simp [substL, List.any_cons, hnot.1, hnot.2, layX]
+
+theorem substPh_eq (l : Bool) (i : Nat) (repl s : Str) : substPh (kwOf l) i repl s = subP (phWord l i) repl s := rfl
+
+/-! ### the invariant of the tokens during the insertion passes -/
+
+/-- the text contains no placeholder word -/
+def NoPh (s : Str) : Prop := ∀ l i, isInfix (phWord l i) s = false
+
+/-- source tokens and inserted comments contain no placeholder word; placeholder lines are well formed -/
+def TokInv : XTok → Prop
+  | .tok s => NoPh s.text
+  | .cmt _ full => NoPh full
+  | .ph _ j pad => j ≤ 999999 ∧ pad ≠ [] ∧ pad.all isWs = true
+
+theorem mem_of_infix {p s : Str} (h : isInfix p s = true) : ∀ c ∈ p, c ∈ s := by
+  obtain ⟨a, b, rfl⟩ := C01.isInfix_iff.mp h
+  intro c hc; simp [hc]
+
+theorem digit_not_BI : ∀ c ∈ C02.asciiDigits, c ≠ 'B' ∧ c ≠ 'I' := by decide
+theorem kw_BI : 'B' ∈ kwBlock ∧ 'B' ∉ kwLine ∧ 'I' ∈ kwLine ∧ 'I' ∉ kwBlock := by decide
+
+/-- a placeholder word contains no other placeholder word -/
+theorem phWord_infix {l l' : Bool} {i j : Nat} (hi : i ≤ 999999) (hj : j ≤ 999999)
+    (h : isInfix (phWord l i) (phWord l' j) = true) : l = l' ∧ i = j := by
+  by_cases hl : l = l'
+  · subst hl
+    have := C02.isInfix_eq_of_length (by rw [phWord_length l hi, phWord_length l hj]) h
+    exact ⟨rfl, C02.padSix_inj (List.append_cancel_left this)⟩
+  · exfalso
+    have hm := mem_of_infix h
+    cases l <;> cases l'
+    · exact hl rfl
+    · have := hm 'B' (by simp [phWord, kw_BI.1])
+      simp only [phWord, if_true, List.mem_append] at this
+      rcases this with h' | h'
+      · exact kw_BI.2.1 h'
+      · exact (digit_not_BI _ (C02.padSix_ascii j _ h')).1 rfl
+    · have := hm 'I' (by simp [phWord, kw_BI.2.2.1])
+      simp only [phWord, Bool.false_eq_true, if_false, List.mem_append] at this
+      rcases this with h' | h'
+      · exact kw_BI.2.2.2 h'
+      · exact (digit_not_BI _ (C02.padSix_ascii j _ h')).2 rfl
+    · exact hl rfl
+
+/-- a placeholder line contains no placeholder word but its own -/
+theorem ph_free {l l' : Bool} {i j : Nat} {pad : Str} (hi : i ≤ 999999) (hj : j ≤ 999999) (hne : pad ≠ [])
+    (hws : pad.all isWs = true) (hd : ¬(l' = l ∧ j = i)) : isInfix (phWord l i) (XTok.ph l' j pad).text = false := by
+  cases hcontra : isInfix (phWord l i) (XTok.ph l' j pad).text with
+  | false => rfl
+  | true =>
+    exfalso
+    have hch := phWord_chars l i
+    obtain ⟨c0, P', hP, hc0⟩ := phWord_head l i
+    have wsNot : ∀ c, c ∈ phWord l i → isWs c = true → False := fun c hc hw => by rw [(hch c hc).1] at hw; cases hw
+    have inQ : isInfix (phWord l i) (phWord l' j) = true → False := fun h => by
+      obtain ⟨rfl, rfl⟩ := phWord_infix hi hj h; exact hd ⟨rfl, rfl⟩
+    obtain ⟨y, pad', rfl⟩ : ∃ y pad', pad = y :: pad' := by
+      cases pad with
+      | nil => exact absurd rfl hne
+      | cons y pad' => exact ⟨y, pad', rfl⟩
+    have hy : isWs y = true := by simp only [List.all_cons, Bool.and_eq_true] at hws; exact hws.1
+    have e : (XTok.ph l' j (y :: pad')).text = phWord l' j ++ ((y :: pad') ++ (phWord l' j ++ [';'])) := by
+      simp [XTok.text]
+    rw [e] at hcontra
+    rcases C12.infix_append_cases hcontra with h | h | ⟨p1, c2, p2, e1, _, _, hh⟩
+    · exact inQ h
+    · rcases C12.infix_append_cases h with h | h | ⟨p1, c2, p2, e1, hne1, hm, _⟩
+      · rw [hP] at h
+        exact wsNot c0 (by rw [hP]; simp) (List.all_eq_true.mp hws _ (C01.isInfix_cons_mem h))
+      · rcases C12.infix_append_cases h with h | h | ⟨p1, c2, p2, e1, _, _, hh⟩
+        · exact inQ h
+        · rw [hP] at h
+          have := C01.isInfix_cons_mem h
+          simp only [List.mem_singleton] at this
+          exact (hch c0 (by rw [hP]; simp)).2.2.2.2.2.2.2.2.1 this
+        · simp only [List.head?_cons, Option.some.injEq] at hh
+          subst hh
+          exact (hch ';' (by rw [e1]; simp)).2.2.2.2.2.2.2.2.1 rfl
+      · obtain ⟨c, hcm⟩ := List.exists_mem_of_ne_nil _ hne1
+        exact wsNot c (by rw [e1]; simp [hcm]) (List.all_eq_true.mp hws _ (hm c hcm))
+    · simp only [List.cons_append, List.head?_cons, Option.some.injEq] at hh
+      subst hh
+      exact wsNot y (by rw [e1]; simp) hy
+
+theorem free_of_inv {t : XTok} (h : TokInv t) (l : Bool) {i : Nat} (hi : i ≤ 999999) : Free l i t := by
+  cases t with
+  | tok s => exact Or.inr (h l i)
+  | cmt l' full => exact Or.inr (h l i)
+  | ph l' j pad =>
+    obtain ⟨hj, hne, hws⟩ := h
+    by_cases hd : l' = l ∧ j = i
+    · obtain ⟨rfl, rfl⟩ := hd
+      exact Or.inl ⟨pad, rfl, hne, hws⟩
+    · exact Or.inr (ph_free hi hj hne hws hd)
+
+theorem inv_substTok {t : XTok} (h : TokInv t) (l : Bool) (i : Nat) {repl : Str} (hr : NoPh repl) :
+    TokInv (substTok l i repl t) := by
+  cases t with
+  | tok s => exact h
+  | cmt l' full => exact h
+  | ph l' j pad =>
+    simp only [substTok]
+    split
+    · exact hr
+    · exact h
+
+theorem ctxAfter_substTok (l : Bool) (i : Nat) (repl : Str) (t : XTok) : ctxAfter (substTok l i repl t) = ctxAfter t := by
+  cases t with
+  | tok s => rfl
+  | cmt l' full => rfl
+  | ph l' j pad =>
+    simp only [substTok]
+    split
+    · next h => obtain ⟨rfl, rfl⟩ := h; cases l' <;> rfl
+    · rfl
+
+theorem gapOK_substTok (c : Ctx) (l : Bool) (i : Nat) (repl : Str) (t : XTok) (g : Str) :
+    gapOK c (substTok l i repl t) g = gapOK c t g := by
+  cases t with
+  | tok s => rfl
+  | cmt l' full => rfl
+  | ph l' j pad =>
+    simp only [substTok]
+    split
+    · cases c <;> rfl
+    · rfl
+
+theorem okX_substL (l : Bool) (i : Nat) (repl : Str) : ∀ (lay : List (Str × XTok)) (c : Ctx),
+    okX c (substL l i repl lay) = okX c lay
+  | [], _ => rfl
+  | (g, t) :: lay, c => by
+    have ih := okX_substL l i repl lay (ctxAfter t)
+    simp only [substL] at ih
+    simp only [substL, List.map_cons, okX, ctxAfter_substTok, gapOK_substTok, ih]
+
+/-- a whole table at once -/
+def substTokT (l : Bool) (T : Tbl Str) : XTok → XTok
+  | .ph l' j pad => if l' = l then (match T.get? j with | some txt => .cmt l txt | none => .ph l' j pad) else .ph l' j pad
+  | t => t
+
+theorem substTokT_cons (l : Bool) (i : Nat) (txt : Str) (T : Tbl Str) (t : XTok) :
+    substTokT l ((i, txt) :: T) t = substTokT l T (substTok l i txt t) := by
+  cases t with
+  | tok s => rfl
+  | cmt l' full => rfl
+  | ph l' j pad =>
+    by_cases hl : l' = l
+    · subst hl
+      by_cases hj : j = i
+      · subst hj
+        simp [substTokT, substTok, Tbl.get?]
+      · have : ¬ i = j := fun e => hj e.symm
+        simp [substTokT, substTok, Tbl.get?, hj, this]
+    · simp [substTokT, substTok, hl]
+
+theorem foldl_substL (l : Bool) : ∀ (T : Tbl Str) (lay : List (Str × XTok)),
+    T.foldl (fun lay e => substL l e.1 e.2 lay) lay = lay.map fun p => (p.1, substTokT l T p.2)
+  | [], lay => by
+    simp only [List.foldl_nil]
+    have : ∀ t, substTokT l [] t = t := by
+      intro t; cases t <;> simp [substTokT, Tbl.get?]
+    simp [this]
+  | (i, txt) :: T, lay => by
+    simp only [List.foldl_cons]
+    rw [foldl_substL l T]
+    simp only [substL, List.map_map]
+    apply List.map_congr_left
+    intro p _
+    simp [substTokT_cons]
+
+/-! ## 4. the two insertion passes on a layout -/
+
+theorem insertLine_fold (L : Tbl Str) : ∀ (lay : List (Str × XTok)) (c : Ctx) (tail : Str),
+    okX c lay = true → tail.all isWs = true → (∀ p ∈ lay, TokInv p.2) → (∀ e ∈ L, e.1 ≤ 999999 ∧ NoPh e.2) →
+    insertLineComments L (layX lay tail) = layX (L.foldl (fun lay e => substL true e.1 e.2 lay) lay) tail := by
+  induction L with
+  | nil => intros; rfl
+  | cons e L ih =>
+    intro lay c tail ok ht hinv hL
+    have he := hL e List.mem_cons_self
+    have hsub := subP_layX true e.1 e.2 lay c tail ok ht (fun p hp => free_of_inv (hinv p hp) true he.1)
+    have e1 : insertLineComments (e :: L) (layX lay tail) =
+        insertLineComments L (substPh kwLine e.1 e.2 (layX lay tail)).1 := rfl
+    rw [e1, show substPh kwLine e.1 e.2 (layX lay tail) = subP (phWord true e.1) e.2 (layX lay tail) from rfl, hsub]
+    simp only [List.foldl_cons]
+    apply ih (substL true e.1 e.2 lay) c tail (by rw [okX_substL]; exact ok) ht
+    · intro p hp
+      simp only [substL, List.mem_map] at hp
+      obtain ⟨q, hq, rfl⟩ := hp
+      exact inv_substTok (hinv q hq) true e.1 he.2
+    · exact fun e' he' => hL e' (List.mem_cons_of_mem _ he')
+
+/-- **line comments**: every line-comment placeholder line whose id is in the table is replaced by the comment -/
+theorem insertLine_layX (L : Tbl Str) (lay : List (Str × XTok)) (c : Ctx) (tail : Str)
+    (ok : okX c lay = true) (ht : tail.all isWs = true) (hinv : ∀ p ∈ lay, TokInv p.2)
+    (hL : ∀ e ∈ L, e.1 ≤ 999999 ∧ NoPh e.2) :
+    insertLineComments L (layX lay tail) = layX (lay.map fun p => (p.1, substTokT true L p.2)) tail := by
+  rw [insertLine_fold L lay c tail ok ht hinv hL, foldl_substL]
+
+/-- the step of `insert_block_comments` -/
+def blockF (acc : Str × Str × Bool) (e : Nat × Str) : Str × Str × Bool :=
+  let bc := if acc.2.2 then makeDefaultBlockComment .native e.2 else e.2
+  let bc := if isInfix bc acc.2.1 then [] else bc
+  let r := substPh kwBlock e.1 bc acc.1
+  if r.2 then (r.1, acc.2.1 ++ bc, false) else (acc.1, acc.2.1, false)
+
+theorem insertBlock_eq (B : Tbl Str) (s : Str) :
+    insertBlockComments .native B s =
+      (if (B.foldl blockF (s, [], true)).2.1.isEmpty then makeDefaultBlockComment .native [] ++ (B.foldl blockF (s, [], true)).1
+       else (B.foldl blockF (s, [], true)).1) := rfl
+
+/-- no text is contained in what has been written before it -/
+def indepFrom : Str → List Str → Bool
+  | _, [] => true
+  | sofar, t :: ts => !isInfix t sofar && indepFrom (sofar ++ t) ts
+
+theorem any_substL_ne {i j : Nat} (hij : j ≠ i) (t : Str) (lay : List (Str × XTok)) :
+    ((substL false i t lay).any fun p => isPhX false j p.2) = lay.any fun p => isPhX false j p.2 := by
+  simp only [substL, List.any_map]
+  congr 1
+  funext p
+  cases hp : p.2 with
+  | tok s => simp [substTok, hp]
+  | cmt l' full => simp [substTok, hp]
+  | ph l' k pad =>
+    simp only [Function.comp, hp, substTok]
+    split
+    · next h =>
+      obtain ⟨rfl, rfl⟩ := h
+      have : (k == j) = false := by simpa using fun e : k = j => hij e.symm
+      simp [isPhX, this]
+    · rfl
+
+/-- one step of the block-comment pass on a layout, with the text to insert given -/
+theorem blockF_step (lay : List (Str × XTok)) (c : Ctx) (tail sofar : Str) (first : Bool) (e : Nat × Str) (bc : Str)
+    (ok : okX c lay = true) (ht : tail.all isWs = true) (hinv : ∀ p ∈ lay, TokInv p.2) (hi : e.1 ≤ 999999)
+    (hbc : bc = if first then makeDefaultBlockComment .native e.2 else e.2)
+    (hind : isInfix bc sofar = false) (hpres : (lay.any fun p => isPhX false e.1 p.2) = true) :
+    blockF (layX lay tail, sofar, first) e = (layX (substL false e.1 bc lay) tail, sofar ++ bc, false) := by
+  have hsub := subP_layX false e.1 bc lay c tail ok ht (fun p hp => free_of_inv (hinv p hp) false hi)
+  have e1 : substPh kwBlock e.1 bc (layX lay tail) = subP (phWord false e.1) bc (layX lay tail) := rfl
+  simp only [blockF, ← hbc, hind, Bool.false_eq_true, if_false, e1, hsub, hpres, if_true]
+
+theorem blockF_rest : ∀ (B : Tbl Str) (lay : List (Str × XTok)) (c : Ctx) (tail sofar : Str),
+    okX c lay = true → tail.all isWs = true → (∀ p ∈ lay, TokInv p.2) →
+    (∀ e ∈ B, e.1 ≤ 999999 ∧ NoPh e.2 ∧ (lay.any fun p => isPhX false e.1 p.2) = true) →
+    (B.map (·.1)).Nodup → indepFrom sofar (B.map (·.2)) = true →
+    ∃ sofar', B.foldl blockF (layX lay tail, sofar, false) =
+      (layX (B.foldl (fun lay e => substL false e.1 e.2 lay) lay) tail, sofar ++ sofar', false)
+  | [], lay, c, tail, sofar, _, _, _, _, _, _ => ⟨[], by simp⟩
+  | e :: B, lay, c, tail, sofar, ok, ht, hinv, hB, hnd, hind => by
+    have he := hB e List.mem_cons_self
+    simp only [List.map_cons, indepFrom, Bool.and_eq_true, Bool.not_eq_true'] at hind
+    simp only [List.map_cons, List.nodup_cons] at hnd
+    simp only [List.foldl_cons]
+    rw [blockF_step lay c tail sofar false e e.2 ok ht hinv he.1 rfl hind.1 he.2.2]
+    obtain ⟨s', hs'⟩ := blockF_rest B (substL false e.1 e.2 lay) c tail (sofar ++ e.2) (by rw [okX_substL]; exact ok) ht
+      (by
+        intro p hp
+        simp only [substL, List.mem_map] at hp
+        obtain ⟨q, hq, rfl⟩ := hp
+        exact inv_substTok (hinv q hq) false e.1 he.2.1)
+      (by
+        intro e' he'
+        have h' := hB e' (List.mem_cons_of_mem _ he')
+        refine ⟨h'.1, h'.2.1, ?_⟩
+        rw [any_substL_ne (fun h => hnd.1 (by rw [← h]; exact List.mem_map_of_mem he'))]
+        exact h'.2.2)
+      hnd.2 hind.2
+    exact ⟨e.2 ++ s', by rw [hs']; simp⟩
+
+/-- the texts the block-comment pass inserts: the first one completed by the default header unless it is a header -/
+def blockTbl : Tbl Str → Tbl Str
+  | [] => []
+  | (i, t) :: B => (i, makeDefaultBlockComment .native t) :: B
+
+/-- **block comments** (at least one): every block-comment placeholder line is replaced by its comment, the first
+    one by the comment completed to a header; nothing is put in front of the text -/
+theorem insertBlock_layX (e : Nat × Str) (B : Tbl Str) (lay : List (Str × XTok)) (c : Ctx) (tail : Str)
+    (ok : okX c lay = true) (ht : tail.all isWs = true) (hinv : ∀ p ∈ lay, TokInv p.2)
+    (hB : ∀ e' ∈ e :: B, e'.1 ≤ 999999 ∧ NoPh e'.2 ∧ (lay.any fun p => isPhX false e'.1 p.2) = true)
+    (hhdr : NoPh (makeDefaultBlockComment .native e.2))
+    (hnd : ((e :: B).map (·.1)).Nodup) (hind : indepFrom [] ((blockTbl (e :: B)).map (·.2)) = true) :
+    insertBlockComments .native (e :: B) (layX lay tail) =
+      layX (lay.map fun p => (p.1, substTokT false (blockTbl (e :: B)) p.2)) tail := by
+  obtain ⟨i, t⟩ := e
+  have he := hB (i, t) List.mem_cons_self
+  simp only [blockTbl, List.map_cons, indepFrom, Bool.and_eq_true, Bool.not_eq_true'] at hind
+  simp only [List.map_cons, List.nodup_cons] at hnd
+  have hstep := blockF_step lay c tail [] true (i, t) (makeDefaultBlockComment .native t) ok ht hinv he.1 rfl hind.1 he.2.2
+  obtain ⟨s', hs'⟩ := blockF_rest B (substL false i (makeDefaultBlockComment .native t) lay) c tail
+    ([] ++ makeDefaultBlockComment .native t) (by rw [okX_substL]; exact ok) ht
+    (by
+      intro p hp
+      simp only [substL, List.mem_map] at hp
+      obtain ⟨q, hq, rfl⟩ := hp
+      exact inv_substTok (hinv q hq) false i hhdr)
+    (by
+      intro e' he'
+      have h' := hB e' (List.mem_cons_of_mem _ he')
+      refine ⟨h'.1, h'.2.1, ?_⟩
+      rw [any_substL_ne (fun h => hnd.1 (by rw [← h]; exact List.mem_map_of_mem he'))]
+      exact h'.2.2)
+    hnd.2 hind.2
+  have hfold : ((i, t) :: B).foldl blockF (layX lay tail, [], true) =
+      (layX (B.foldl (fun lay e => substL false e.1 e.2 lay) (substL false i (makeDefaultBlockComment .native t) lay)) tail,
+        [] ++ makeDefaultBlockComment .native t ++ s', false) := by
+    rw [List.foldl_cons, hstep, hs']
+  have hne : ([] ++ makeDefaultBlockComment .native t ++ s').isEmpty = false := by
+    have := C12.makeDefault_native_ne t
+    cases hm : makeDefaultBlockComment .native t with
+    | nil => exact absurd hm this
+    | cons x r => rfl
+  rw [insertBlock_eq, hfold]
+  simp only [hne, Bool.false_eq_true, if_false]
+  have := foldl_substL false ((i, makeDefaultBlockComment .native t) :: B) lay
+  simp only [List.foldl_cons] at this
+  rw [this]
+  rfl
+
+/-! ## 5. `remove_trailing_spaces` on a layout whose tokens may span several lines -/
+
+/-- a token text the line-wise processing leaves alone: it ends in a non-blank, holds no carriage return, is a fixed
+    point of the trailing-space removal, and its first line is not blank -/
+def Solid (τ : Str) : Prop :=
+  (∃ a z, τ = a ++ [z] ∧ isWs z = false) ∧ (∀ c ∈ τ, c ≠ '\r') ∧ C01.rts τ = τ ∧ C01.blankHead τ = false
+
+theorem blankHead_nl (s : Str) : C01.blankHead ('\n' :: s) = true := by
+  have : splitNl ('\n' :: s) = [] :: splitNl s := by rw [splitNl]
+  simp [C01.blankHead, this]
+
+/-- behind a text that ends in a non-blank the processing starts afresh -/
+theorem rts_append_end {z : Char} (hz : isWs z = false) (s : Str) : ∀ a : Str,
+    C01.rts (a ++ z :: s) = C01.rts (a ++ [z]) ++ C01.rts s ∧ C01.blankHead (a ++ z :: s) = C01.blankHead (a ++ [z])
+  | [] => by
+    have hn := C01.ne_nl_of_not_ws hz
+    simp only [List.nil_append]
+    rw [C01.rts_cons hn, C01.rts_cons hn, C01.blankHead_cons hn, C01.blankHead_cons hn, hz, C01.rts_nil]
+    simp
+  | c :: a => by
+    have ih := rts_append_end hz s a
+    simp only [List.cons_append]
+    by_cases hc : c = '\n'
+    · subst hc
+      rw [C01.rts_nl, C01.rts_nl, ih.1, blankHead_nl, blankHead_nl]
+      simp
+    · rw [C01.rts_cons hc, C01.rts_cons hc, C01.blankHead_cons hc, C01.blankHead_cons hc, ih.1, ih.2]
+      refine ⟨?_, rfl⟩
+      split <;> simp
+
+theorem solid_rts {τ : Str} (h : Solid τ) (s : Str) :
+    C01.rts (τ ++ s) = τ ++ C01.rts s ∧ C01.blankHead (τ ++ s) = false := by
+  obtain ⟨⟨a, z, rfl, hz⟩, _, hfix, hb⟩ := h
+  have := rts_append_end hz s a
+  simp only [List.append_assoc, List.singleton_append]
+  rw [this.1, this.2, hfix, hb]
+  simp
+
+theorem solid_head {τ : Str} (h : Solid τ) (s : Str) : (τ ++ s).head? ≠ some '\n' := by
+  obtain ⟨⟨a, z, rfl, hz⟩, _, _, hb⟩ := h
+  cases a with
+  | nil =>
+    simp only [List.nil_append, List.singleton_append, List.head?_cons, ne_eq, Option.some.injEq]
+    exact C01.ne_nl_of_not_ws hz
+  | cons c a =>
+    simp only [List.cons_append, List.head?_cons, ne_eq, Option.some.injEq]
+    rintro rfl
+    rw [List.cons_append, blankHead_nl] at hb
+    cases hb
+
+theorem universalNl_head_nl (g : Str) (h : g.head? = some '\n') : (universalNl g).head? = some '\n' := by
+  cases g with
+  | nil => cases h
+  | cons c g =>
+    simp only [List.head?_cons, Option.some.injEq] at h
+    subst h
+    rw [C01.universalNl_cons (by decide)]
+    rfl
+
+theorem gapOK_map {c : Ctx} {t : XTok} {g g' : Str} (h : gapOK c t g = true) (hne : g ≠ [] → g' ≠ [])
+    (hnl : g.head? = some '\n' → g'.head? = some '\n') : gapOK c t g' = true := by
+  cases c with
+  | cov => rfl
+  | dl =>
+    simp only [gapOK, Bool.or_eq_true, Bool.not_eq_true', List.isEmpty_eq_false_iff] at h ⊢
+    exact h.imp id hne
+  | wd =>
+    simp only [gapOK, Bool.or_eq_true, Bool.not_eq_true', List.isEmpty_eq_false_iff] at h ⊢
+    exact h.imp id hne
+  | bk =>
+    simp only [gapOK, Bool.not_eq_true', List.isEmpty_eq_false_iff] at h ⊢
+    exact hne h
+  | ln =>
+    simp only [gapOK, beq_iff_eq] at h ⊢
+    exact hnl h
+
+/-- the newline translation changes the gaps only -/
+theorem unl_layX : ∀ (l : List (Str × XTok)) (c : Ctx) (tail : Str), okX c l = true → (∀ p ∈ l, Solid p.2.text) →
+    universalNl (layX l tail) = layX (l.map fun p => (universalNl p.1, p.2)) (universalNl tail) ∧
+    okX c (l.map fun p => (universalNl p.1, p.2)) = true
+  | [], _, _, _, _ => ⟨rfl, rfl⟩
+  | (g, t) :: l, c, tail, ok, hs => by
+    simp only [okX, Bool.and_eq_true] at ok
+    obtain ⟨ih1, ih2⟩ := unl_layX l (ctxAfter t) tail ok.2 (fun p hp => hs p (List.mem_cons_of_mem _ hp))
+    have hsol := hs (g, t) List.mem_cons_self
+    obtain ⟨hg', hne⟩ := C01.universalNl_ws g ok.1.1
+    constructor
+    · simp only [layX, List.map_cons, List.append_assoc]
+      rw [C01.universalNl_append (solid_head hsol _), C01.universalNl_solid _ _ hsol.2.1, ih1]
+    · simp only [List.map_cons, okX, Bool.and_eq_true]
+      exact ⟨⟨hg', gapOK_map ok.1.2 hne (universalNl_head_nl g)⟩, ih2⟩
+
+/-- a gap in front of something solid stays a gap, stays non-empty, keeps a leading line feed -/
+theorem rts_gap' {s : Str} (hs : C01.blankHead s = false) : ∀ g : Str, g.all isWs = true →
+    ∃ g', g'.all isWs = true ∧ (g ≠ [] → g' ≠ []) ∧ (g.head? = some '\n' → g'.head? = some '\n') ∧
+      C01.rts (g ++ s) = g' ++ C01.rts s
+  | [], _ => ⟨[], rfl, fun h => h, fun h => h, rfl⟩
+  | c :: g, h => by
+    simp only [List.all_cons, Bool.and_eq_true] at h
+    obtain ⟨g', hg', hne, _, e⟩ := rts_gap' hs g h.2
+    by_cases hc : c = '\n'
+    · subst hc
+      exact ⟨'\n' :: g', by simp [hg', C01.isWs_nl], fun _ => by simp, fun _ => rfl, by simp [C01.rts_nl, e]⟩
+    · have hnl : (c :: g).head? = some '\n' → False := by
+        simp only [List.head?_cons, Option.some.injEq]; exact hc
+      simp only [List.cons_append]
+      rw [C01.rts_cons hc, e]
+      split
+      · next hb =>
+        simp only [Bool.and_eq_true] at hb
+        refine ⟨g', hg', fun _ => hne ?_, fun h' => (hnl h').elim, rfl⟩
+        rintro rfl
+        rw [List.nil_append, hs] at hb
+        exact absurd hb.2 (by simp)
+      · exact ⟨c :: g', by simp [hg', h.1], fun _ => by simp, fun h' => (hnl h').elim, rfl⟩
+
+/-- the trailing-space removal changes the gaps only -/
+theorem rts_layX : ∀ (l : List (Str × XTok)) (c : Ctx) (tail : Str), okX c l = true → (∀ p ∈ l, Solid p.2.text) →
+    ∃ l', C01.rts (layX l tail) = layX l' (C01.rts tail) ∧ l'.map Prod.snd = l.map Prod.snd ∧ okX c l' = true
+  | [], _, _, _, _ => ⟨[], rfl, rfl, rfl⟩
+  | (g, t) :: l, c, tail, ok, hs => by
+    simp only [okX, Bool.and_eq_true] at ok
+    obtain ⟨l', e, hm, ok'⟩ := rts_layX l (ctxAfter t) tail ok.2 (fun p hp => hs p (List.mem_cons_of_mem _ hp))
+    have hsol := solid_rts (hs (g, t) List.mem_cons_self) (layX l tail)
+    obtain ⟨g', hg', hne, hnl, eg⟩ := rts_gap' hsol.2 g ok.1.1
+    refine ⟨(g', t) :: l', ?_, by simp [hm], ?_⟩
+    · simp only [layX, List.append_assoc]
+      rw [eg, hsol.1, e]
+    · simp only [okX, Bool.and_eq_true]
+      exact ⟨⟨hg', gapOK_map ok.1.2 hne hnl⟩, ok'⟩
+
+/-- **`remove_trailing_spaces` keeps the layout** when every token text is solid -/
+theorem removeTrailing_layX (l : List (Str × XTok)) (c : Ctx) (ok : okX c l = true) (hs : ∀ p ∈ l, Solid p.2.text) :
+    ∃ l', removeTrailingSpaces (layX l ['\n']) = layX l' ['\n'] ∧ l'.map Prod.snd = l.map Prod.snd ∧ okX c l' = true := by
+  obtain ⟨e1, ok1⟩ := unl_layX l c ['\n'] ok hs
+  have hs1 : ∀ p ∈ l.map (fun p => (universalNl p.1, p.2)), Solid p.2.text := by
+    intro p hp
+    obtain ⟨q, hq, rfl⟩ := List.mem_map.mp hp
+    exact hs q hq
+  obtain ⟨l', e2, hm, ok2⟩ := rts_layX _ c (universalNl ['\n']) ok1 hs1
+  refine ⟨l', ?_, by rw [hm]; simp, ok2⟩
+  rw [C01.removeTrailingSpaces_eq, e1, e2]
+  have : C01.rts (universalNl ['\n']) = ['\n'] := by decide
+  rw [this]
+
+/-! ## 6. the tokens of the raw output; the document that is written -/
+
+/-- every placeholder entry of the tree has its comment in the table of its kind -/
+def phCov (L B : Tbl Str) : Entries → Bool
+  | [] => true
+  | (_, .dict es) :: r => phCov L B es && phCov L B r
+  | (_, .list _) :: r => phCov L B r
+  | (k, .leaf x) :: r =>
+    (match phOf k x with
+     | some (true, i) => (L.get? i).isSome
+     | some (false, i) => (B.get? i).isSome
+     | none => true) && phCov L B r
+
+/-- what the tokens of the raw output are: admissible source tokens and well-formed placeholder lines with a comment
+    in the table -/
+def XOK (L B : Tbl Str) : XTok → Prop
+  | .tok s => C02.TokOK s
+  | .cmt _ _ => False
+  | .ph l i pad => i ≤ 999999 ∧ pad ≠ [] ∧ pad.all isWs = true ∧ ((if l then L else B).get? i).isSome = true
+
+theorem tokOK_word {w : Str} (h : isSrcWord w = true) : C02.TokOK (.word w) := Or.inl h
+
+theorem tokOK_lit {l : Lit} (h : l.ok = true) : C02.TokOK l.tok := by
+  cases l with
+  | bare w => exact Or.inl h
+  | quoted q b => exact h
+
+theorem delims_ok : C02.TokOK (.word ['{']) ∧ C02.TokOK (.word ['}']) ∧ C02.TokOK (.word ['(']) ∧
+    C02.TokOK (.word [')']) ∧ C02.TokOK (.word [';']) :=
+  ⟨C02.tokOK_delim (by decide), C02.tokOK_delim (by decide), C02.tokOK_delim (by decide), C02.tokOK_delim (by decide),
+    C02.tokOK_delim (by decide)⟩
+
+theorem xtoks_ok (L B : Tbl Str) : ∀ (d lvl : Nat) (D : Entries), wshEs d D = true → phCov L B D = true →
+    ∀ x ∈ xtoksEs lvl D, XOK L B x
+  | _, _, [], _, _, x, hx => by simp [xtoksEs] at hx
+  | d, lvl, (k, .dict es) :: r, h, hc, x, hx => by
+    simp only [wshEs, Bool.and_eq_true] at h
+    simp only [phCov, Bool.and_eq_true] at hc
+    simp only [xtoksEs, List.mem_cons, List.mem_append, List.not_mem_nil, or_false] at hx
+    rcases hx with ((rfl | rfl | hx) | rfl) | hx
+    · exact tokOK_word (C01.domKey_word h.1.1)
+    · exact delims_ok.1
+    · exact xtoks_ok L B (d + 1) (lvl + 1) es h.1.2 hc.1 x hx
+    · exact delims_ok.2.1
+    · exact xtoks_ok L B d lvl r h.2 hc.2 x hx
+  | d, lvl, (k, .list xs) :: r, h, hc, x, hx => by
+    simp only [wshEs, Bool.and_eq_true] at h
+    simp only [phCov] at hc
+    simp only [xtoksEs, List.mem_cons, List.mem_append, List.mem_map, List.not_mem_nil, or_false] at hx
+    rcases hx with (rfl | (rfl | ⟨t, ht, rfl⟩) | rfl | rfl) | hx
+    · exact tokOK_word (C01.domKey_word h.1.1)
+    · exact delims_ok.2.2.1
+    · exact C02.srcToksXs_ok _ (d + 1) (C01.srcOfXs_wf (d + 1) xs h.1.2) t ht
+    · exact delims_ok.2.2.2.1
+    · exact delims_ok.2.2.2.2
+    · exact xtoks_ok L B d lvl r h.2 hc x hx
+  | d, lvl, (k, .leaf y) :: r, h, hc, x, hx => by
+    simp only [wshEs, Bool.and_eq_true, Bool.or_eq_true, decide_eq_true_eq] at h
+    simp only [phCov, Bool.and_eq_true] at hc
+    simp only [xtoksEs, List.mem_append] at hx
+    rcases hx with hx | hx
+    · cases hp : phOf k y with
+      | some li =>
+        obtain ⟨l, i⟩ := li
+        rw [hp] at hx hc
+        simp only [List.mem_singleton] at hx
+        subst hx
+        refine ⟨(phOf_some hp).2.2, padOf_ne _ _, padOf_ws _ _, ?_⟩
+        cases l <;> simpa using hc.1
+      | none =>
+        rw [hp] at hx h
+        simp only [List.mem_cons, List.not_mem_nil, or_false] at hx
+        rcases h.1 with h1 | h1
+        · cases h1
+        · rcases hx with rfl | rfl | rfl
+          · exact tokOK_word (C01.domKey_word h1.1.1)
+          · exact tokOK_lit (C01.written_ok h1.1.2)
+          · exact delims_ok.2.2.2.2
+    · exact xtoks_ok L B d lvl r h.2 hc.2 x hx
+
+def lineBody (full : Str) : Str := full.drop 2
+def blockBody (full : Str) : Str := ((full.drop 2).dropLast).dropLast
+
+/-- **the document that is written** for a tree with placeholder entries and the two comment tables: a placeholder
+    entry becomes its comment, every other entry is spelled as the writer spells it -/
+def docEs (L B : Tbl Str) : Entries → List CItem
+  | [] => []
+  | (k, .dict es) :: r => .entry (keyStr k) (.dict (docEs L B es)) :: docEs L B r
+  | (k, .list xs) :: r => .entry (keyStr k) (.list (srcOfXs .native xs)) :: docEs L B r
+  | (k, .leaf x) :: r =>
+    (match phOf k x with
+     | some (true, i) => .lineC (lineBody ((L.get? i).getD []))
+     | some (false, i) => .blockC (blockBody ((B.get? i).getD []))
+     | none => .entry (keyStr k) (.lit (writtenLit .native x))) :: docEs L B r
+
+/-- a token of the final text as a token of a commented document -/
+def toC : XTok → CTok
+  | .tok s => .tok s
+  | .cmt true full => .lineC (lineBody full)
+  | .cmt false full => .blockC (blockBody full)
+  | .ph l i pad => .tok (.word (XTok.text (.ph l i pad)))
+
+/-- both insertion passes on one token -/
+def finalTok (L B : Tbl Str) (t : XTok) : XTok := substTokT true L (substTokT false B t)
+
+theorem ctoks_doc (L B : Tbl Str) : ∀ (lvl : Nat) (D : Entries), phCov L B D = true →
+    ctoksItems (docEs L B D) = (xtoksEs lvl D).map fun t => toC (finalTok L B t)
+  | _, [], _ => by simp [docEs, xtoksEs, ctoksItems]
+  | lvl, (k, .dict es) :: r, hc => by
+    simp only [phCov, Bool.and_eq_true] at hc
+    simp only [docEs, ctoksItems, xtoksEs, ctoks_doc L B (lvl + 1) es hc.1, ctoks_doc L B lvl r hc.2, List.map_cons,
+      List.map_append, List.map_nil, finalTok, substTokT, toC, List.cons_append, List.append_assoc, List.nil_append]
+  | lvl, (k, .list xs) :: r, hc => by
+    simp only [phCov] at hc
+    simp only [docEs, ctoksItems, xtoksEs, ctoks_doc L B lvl r hc, List.map_cons,
+      List.map_append, List.map_nil, List.map_map, finalTok, substTokT, toC, List.cons_append, List.append_assoc,
+      List.nil_append, List.cons.injEq, true_and]
+    congr 1
+  | lvl, (k, .leaf x) :: r, hc => by
+    simp only [phCov, Bool.and_eq_true] at hc
+    have ih := ctoks_doc L B lvl r hc.2
+    cases hp : phOf k x with
+    | none =>
+      simp only [docEs, hp, ctoksItems, xtoksEs, ih, List.map_cons, List.map_append, List.map_nil, finalTok, substTokT,
+        toC, List.cons_append, List.nil_append]
+    | some li =>
+      obtain ⟨l, i⟩ := li
+      rw [hp] at hc
+      cases l with
+      | true =>
+        obtain ⟨txt, ht⟩ := Option.isSome_iff_exists.mp hc.1
+        simp [docEs, hp, ctoksItems, xtoksEs, ih, finalTok, substTokT, toC, ht]
+      | false =>
+        obtain ⟨txt, ht⟩ := Option.isSome_iff_exists.mp hc.1
+        simp [docEs, hp, ctoksItems, xtoksEs, ih, finalTok, substTokT, toC, ht]
+
+/-! ## 7. from the layout to `spreadC` / `GapsOKC` -/
+
+/-- a token of the final text: a source token or a comment with its delimiters -/
+def WellC : XTok → Prop
+  | .tok _ => True
+  | .cmt true full => ∃ x, full = '/' :: '/' :: x
+  | .cmt false full => ∃ x, full = '/' :: '*' :: x ++ ['*', '/']
+  | .ph _ _ _ => False
+
+theorem blockBody_eq (x : Str) : blockBody ('/' :: '*' :: x ++ ['*', '/']) = x := by
+  have : ∀ x : Str, ((x ++ ['*', '/']).dropLast).dropLast = x := by
+    intro x
+    rw [show x ++ ['*', '/'] = (x ++ ['*']) ++ ['/'] by simp, List.dropLast_concat, List.dropLast_concat]
+  simp [blockBody]
+
+theorem toC_text {t : XTok} (h : WellC t) : (toC t).text = t.text := by
+  cases t with
+  | tok s => rfl
+  | ph l i pad => exact h.elim
+  | cmt l full =>
+    cases l with
+    | true => obtain ⟨x, rfl⟩ := h; rfl
+    | false =>
+      obtain ⟨x, rfl⟩ := h
+      simp only [toC, blockBody_eq, CTok.text, XTok.text]
+
+theorem layX_spreadC : ∀ (l : List (Str × XTok)) (tail : Str), (∀ p ∈ l, WellC p.2) →
+    layX l tail = spreadC (l.map fun p => toC p.2) (l.map Prod.fst) tail
+  | [], _, _ => rfl
+  | (g, t) :: l, tail, h => by
+    have ih := layX_spreadC l tail (fun p hp => h p (List.mem_cons_of_mem _ hp))
+    simp only [spreadC] at ih ⊢
+    simp only [layX, List.map_cons, spread, toC_text (h (g, t) List.mem_cons_self), ih, List.append_assoc]
+
+theorem isCommentX_toC {t : XTok} (h : WellC t) :
+    (isCommentX t = false ∧ ∃ s, t = .tok s) ∨ (∃ f, t = .cmt true f) ∨ (∃ f, t = .cmt false f) := by
+  cases t with
+  | tok s => exact Or.inl ⟨rfl, s, rfl⟩
+  | ph l i pad => exact h.elim
+  | cmt l full => cases l; exact Or.inr (Or.inr ⟨full, rfl⟩); exact Or.inr (Or.inl ⟨full, rfl⟩)
+
+/-- an admissible layout in the sense of section 1 whose first gap is fine is admissible in the sense of `GapsOKC` -/
+theorem gapsOKC_of_okX (tail : Str) (ht : tail.all isWs = true) (hnl : tail.head? = some '\n') :
+    ∀ (l : List (Str × XTok)) (c : Ctx), okX c l = true → (∀ p ∈ l, WellC p.2) →
+    (∀ g t r, l = (g, t) :: r → isCommentX t = true → g ≠ []) →
+    GapsOKC (l.map fun p => toC p.2) (l.map Prod.fst) tail = true
+  | [], _, _, _, _ => rfl
+  | [(g, t)], c, ok, hw, hfirst => by
+    simp only [okX, Bool.and_eq_true] at ok
+    have hg := hfirst g t [] rfl
+    simp only [List.map_cons, List.map_nil, GapsOKC, Bool.and_eq_true, ok.1.1, ht, true_and]
+    rcases isCommentX_toC (hw (g, t) List.mem_cons_self) with ⟨_, s, rfl⟩ | ⟨f, rfl⟩ | ⟨f, rfl⟩
+    · rfl
+    · simp [toC, hnl, hg rfl]
+    · simp [toC, hg rfl]
+  | (g, t) :: (g', u) :: l, c, ok, hw, hfirst => by
+    simp only [okX, Bool.and_eq_true] at ok
+    obtain ⟨⟨hgws, _⟩, ⟨⟨hg'ws, hgap⟩, okr⟩⟩ := ok
+    have hg := hfirst g t _ rfl
+    have hwu := hw (g', u) (by simp)
+    -- the gap in front of `u` is non-empty when `u` is a comment
+    have hu : isCommentX u = true → g' ≠ [] := by
+      intro hcu
+      rcases isCommentX_toC (hw (g, t) List.mem_cons_self) with ⟨_, s, rfl⟩ | ⟨f, rfl⟩ | ⟨f, rfl⟩
+      · cases hd : isDelimSTok s
+        · simp only [ctxAfter, hd, gapOK, Bool.false_eq_true, if_false, Bool.or_eq_true, Bool.not_eq_true',
+            List.isEmpty_eq_false_iff] at hgap
+          rcases hgap with h | h
+          · cases u <;> simp_all [isDelimX, isCommentX]
+          · exact h
+        · simp only [ctxAfter, hd, gapOK, if_true, Bool.or_eq_true, Bool.not_eq_true',
+            List.isEmpty_eq_false_iff, hcu] at hgap
+          rcases hgap with h | h
+          · cases h
+          · exact h
+      · simp only [ctxAfter, gapOK, beq_iff_eq] at hgap
+        intro e; rw [e] at hgap; cases hgap
+      · simpa [ctxAfter, gapOK] using hgap
+    have ih := gapsOKC_of_okX tail ht hnl ((g', u) :: l) (ctxAfter t) (by simp [okX, hg'ws, hgap, okr])
+      (fun p hp => hw p (List.mem_cons_of_mem _ hp))
+      (fun g2 t2 r2 e hc2 => by
+        simp only [List.cons.injEq, Prod.mk.injEq] at e
+        obtain ⟨⟨rfl, rfl⟩, _⟩ := e
+        exact hu hc2)
+    simp only [List.map_cons] at ih ⊢
+    simp only [GapsOKC, Bool.and_eq_true, hgws, ih, and_true, true_and]
+    rcases isCommentX_toC (hw (g, t) List.mem_cons_self) with ⟨_, s, rfl⟩ | ⟨f, rfl⟩ | ⟨f, rfl⟩
+    · rcases isCommentX_toC hwu with ⟨_, s', rfl⟩ | ⟨f, rfl⟩ | ⟨f, rfl⟩
+      · simp only [toC]
+        cases hd : isDelimSTok s
+        · simp only [ctxAfter, hd, gapOK, isDelimX, Bool.false_eq_true, if_false] at hgap
+          simpa [Bool.or_comm] using hgap
+        · simp
+      · simpa [toC] using hu rfl
+      · simpa [toC] using hu rfl
+    · simp only [ctxAfter, gapOK, beq_iff_eq] at hgap
+      simp [toC, hg rfl, hgap]
+    · have : g' ≠ [] := by simpa [ctxAfter, gapOK] using hgap
+      simp [toC, hg rfl, this]
+
+/-- the top of a text: put a line feed in front and the first gap is fine -/
+theorem gapsOKC_top (l : List (Str × XTok)) (g0 : Str) (t0 : XTok) (ok : okX .cov ((g0, t0) :: l) = true)
+    (hw : ∀ p ∈ (g0, t0) :: l, WellC p.2) :
+    GapsOKC (((g0, t0) :: l).map fun p => toC p.2) (('\n' :: g0) :: l.map Prod.fst) ['\n'] = true := by
+  have := gapsOKC_of_okX ['\n'] (by decide) rfl (('\n' :: g0, t0) :: l) .cov
+    (by
+      simp only [okX, Bool.and_eq_true] at ok ⊢
+      refine ⟨⟨?_, rfl⟩, ok.2⟩
+      simp only [List.all_cons, Bool.and_eq_true]
+      exact ⟨by decide, ok.1.1⟩)
+    (by
+      intro p hp
+      rcases List.mem_cons.mp hp with rfl | hp
+      · exact hw (g0, t0) List.mem_cons_self
+      · exact hw p (List.mem_cons_of_mem _ hp))
+    (by
+      intro g t r e _
+      simp only [List.cons.injEq, Prod.mk.injEq] at e
+      rw [← e.1.1]; simp)
+  simpa using this
+
 end DictIO.C12W
